@@ -630,7 +630,8 @@ HCancelExit(a) ==
 HSetCleanup(a) ==
   /\ cur = HT(a) /\ task[HT(a)].pc = "ops" /\ task[HT(a)].bud > 0 /\ WithSleep /\ task[HT(a)].out = ""
   /\ task' = [task EXCEPT ![HT(a)].bud = @ - 1, ![HT(a)].out = "cl"]
-  /\ UNCHANGED <<nev, ev, q, unf, shut, hist, running, idle, semv, depth, lockq, nact, nx, xh, cur, o>>
+  /\ o' = Obs(Line("HOp") @@ [act |-> a, op |-> "cl"], ev, nev, hist, q)
+  /\ UNCHANGED <<nev, ev, q, unf, shut, hist, running, idle, semv, depth, lockq, nact, nx, xh, cur>>
 HCleanupBegin(a) ==
   /\ a <= nact /\ task[HT(a)].pc = "cancelled" /\ task[HT(a)].aw = 0 /\ cur \in {NoTask, HT(a)} /\ task[HT(a)].out = "cl"
   /\ o' = Obs(Line("HOp") @@ [act |-> a, op |-> "cleanup"], ev, nev, hist, q)
